@@ -553,13 +553,17 @@ class Proxy:
             return r.astype(bool)
         return bool(r)
 
+    def isinf(self, x):
+        # symbolic reals are finite; concrete infinities are seen
+        r = _elementwise(lambda e: isinstance(e, (builtins.float, _np.floating)) and e in (_np.inf, -_np.inf), 1)(x)
+        if isinstance(r, _np.ndarray):
+            return r.astype(bool)
+        return bool(r)
+
     def isfinite(self, x):
         r = self.isnan(x)
-        return ~r if isinstance(r, _np.ndarray) else (not r)
-
-    def isinf(self, x):
-        x = _obj(x)
-        return _np.zeros(x.shape, dtype=bool)
+        i = self.isinf(x)
+        return ~(r | i) if isinstance(r, _np.ndarray) else (not (r or i))
 
     def isclose(self, a, b, rtol=1e-5, atol=1e-8, equal_nan=False):
         if not has_sym(a) and not has_sym(b):
